@@ -153,153 +153,114 @@ Qed.
 Lemma shrink_step stk g : WF g -> shrink (items g) (items (step stk g)).
 Proof. intros W. unfold step. destruct (step_due g); [now apply shrink_collect | apply shrink_refl]. Qed.
 
-(* ---------- leaf_ok along histories that never grow a small block ---------- *)
-Definition leaf_ok_its (its : list (Z * item)) : Prop :=
-  forall a it, lookup a its = Some it -> hasflag (iflags it) LEAF_BIT = true ->
-    idecl it = true \/ isize it < WORD_SIZE.
+(* ---------- the LEAF flag is only ever set by the user ---------- *)
+Definition leaf_decl (its : list (Z * item)) : Prop :=
+  forall a it, lookup a its = Some it -> hasflag (iflags it) LEAF_BIT = true -> idecl it = true.
 
-Lemma leaf_ok_its_iff g : NoDup (keys (items g)) -> (leaf_ok g <-> leaf_ok_its (items g)).
-Proof.
-  intros ND. split; intros H a it.
-  - intros L. apply (H a it). now apply lookup_In.
-  - intros I. apply (H a it). now apply In_lookup_nodup.
-Qed.
-
-Lemma leaf_ok_shrink its its' : shrink its its' -> leaf_ok_its its -> leaf_ok_its its'.
+Lemma leaf_decl_shrink its its' : shrink its its' -> leaf_decl its -> leaf_decl its'.
 Proof.
   intros S H a it' L F. destruct (S a it' L) as (it & L0 & (C1 & C2 & C3 & C4 & C5)).
-  rewrite C1, C3. apply (H a it L0). rewrite <- C4; auto. intros E. symmetry in E. now apply MARK_not_LEAF in E.
+  rewrite C3. apply (H a it L0). rewrite <- C4; auto. intros E. symmetry in E. now apply MARK_not_LEAF in E.
 Qed.
 
-(* a command is leaf-safe in a state when it is not a realloc that grows a block smaller than a
-   pointer to the size of a pointer or more (the only way the flag goes stale) *)
-Definition op_leaf_safe (o : op) (g : gc) : bool :=
-  match o with
-  | ORealloc p _ n _ =>
-      match lookup p (items g) with
-      | Some it => (WORD_SIZE <=? isize it) || (n <? WORD_SIZE) || idecl it
-      | None => true
-      end
-  | _ => true
-  end.
+Lemma reg_flags_leaf flags size f : hasflag (reg_flags flags size f) LEAF_BIT = hasflag flags LEAF_BIT.
+Proof.
+  unfold reg_flags. rewrite auto_leaf_off. cbn [andb]. destruct f; auto.
+  apply hasflag_setflag_other; [apply FINALIZE_nonneg | apply LEAF_not_FINALIZE].
+Qed.
 
-Fixpoint hist_leaf_safe (h : list op) (g : gc) : bool :=
-  match h with
-  | [] => true
-  | o :: r => op_leaf_safe o g && hist_leaf_safe r (apply_op o g)
-  end.
-
-Lemma leaf_ok_register stk p size flags f ws decl g :
-  WF g -> leaf_ok_its (items g) ->
-  (hasflag flags LEAF_BIT = true -> decl = true \/ size < WORD_SIZE) ->
-  leaf_ok_its (items (register stk p size flags f ws decl g)).
+Lemma leaf_decl_register stk p size flags f ws decl g :
+  WF g -> leaf_decl (items g) -> (hasflag flags LEAF_BIT = true -> decl = true) ->
+  leaf_decl (items (register stk p size flags f ws decl g)).
 Proof.
   intros W H HF. unfold register. destruct (p =? 0); auto. destruct (size <=? 0); auto.
   destruct (negb (hasflag flags ROOT_BIT)).
   - destruct (lookup p (items g)) eqn:L; auto.
-    match goal with |- leaf_ok_its (items (if _ then step _ ?G else ?G)) => assert (H1 : leaf_ok_its (items G) /\ WF G) end.
-    { split; [|now apply WF_reg_mid]. cbn. intros a it. cbn [lookup]. destruct (Z.eqb_spec p a).
-      - intros E. inversion E; subst. cbn [iflags idecl isize].
-        pose proof LEAF_nonneg. pose proof FINALIZE_nonneg.
-        intros F. assert (F1 : hasflag (if size <? WORD_SIZE then setflag flags LEAF_BIT else flags) LEAF_BIT = true).
-        { destruct f; auto. rewrite hasflag_setflag_other in F; auto. apply LEAF_not_FINALIZE. }
-        destruct (size <? WORD_SIZE) eqn:C; [right; lia | auto].
+    match goal with |- leaf_decl (items (if _ then step _ ?G else ?G)) => assert (H1 : leaf_decl (items G) /\ WF G) end.
+    { split; [|now apply WF_reg_mid]. cbn [items set_membytes set_masks set_items]. intros a it. cbn [lookup].
+      destruct (Z.eqb_spec p a).
+      - intros E. inversion E; subst. cbn [iflags idecl]. rewrite reg_flags_leaf. exact HF.
       - apply H. }
     destruct H1 as [H1 W1]. destruct (running _); auto.
-    eapply leaf_ok_shrink; [apply shrink_step; exact W1 | exact H1].
+    eapply leaf_decl_shrink; [apply shrink_step; exact W1 | exact H1].
   - destruct (negb (flags =? bit ROOT_BIT)); auto. destruct f; auto.
 Qed.
 
-Lemma leaf_ok_unregister fz p g : leaf_ok_its (items g) -> leaf_ok_its (items (unregister run_fin fz p g)).
-Proof. intros H. eapply leaf_ok_shrink; [|exact H]. apply shrink_unregister. apply shrink_call_fin. Qed.
-
-Lemma leaf_ok_update p it it' its : lookup p its = Some it -> leaf_ok_its its ->
-  (hasflag (iflags it') LEAF_BIT = true -> idecl it' = true \/ isize it' < WORD_SIZE) ->
-  leaf_ok_its (update p it' its).
+Lemma leaf_decl_update p it it' its : lookup p its = Some it -> leaf_decl its ->
+  (hasflag (iflags it') LEAF_BIT = true -> idecl it' = true) -> leaf_decl (update p it' its).
 Proof.
   intros L H H' a v La. destruct (Z.eq_dec a p) as [->|N].
   - rewrite lookup_update_same in La by (eapply lookup_In_keys; eauto). inversion La; subst. auto.
   - rewrite lookup_update_other in La by auto. exact (H a v La).
 Qed.
 
-Lemma leaf_ok_remove p its : leaf_ok_its its -> leaf_ok_its (remove p its).
-Proof. intros H. eapply leaf_ok_shrink; [apply shrink_remove | exact H]. Qed.
-
-Lemma leaf_ok_apply_op o g : Inv g -> leaf_ok_its (items g) -> op_leaf_safe o g = true ->
-  leaf_ok_its (items (apply_op o g)).
+Lemma user_flags_leaf leaf extern : hasflag (user_flags leaf extern) LEAF_BIT = leaf.
 Proof.
-  intros [W Q] H SAFE. unfold apply_op. destruct (err g); auto. destruct o; cbn [op_leaf_safe] in SAFE.
+  unfold user_flags, hasflag. rewrite Z.lor_spec. pose proof LEAF_nonneg. pose proof EXTERN_nonneg.
+  assert (B : forall k, 0 <= k -> Z.testbit (bit k) LEAF_BIT = (k =? LEAF_BIT)).
+  { intros k Hk. unfold bit. rewrite Z.shiftl_1_l, Z.pow2_bits_eqb by lia. reflexivity. }
+  destruct leaf, extern; rewrite ?B, ?Z.bits_0 by lia; rewrite ?Z.eqb_refl; auto; vm_compute; reflexivity.
+Qed.
+
+Lemma leaf_decl_apply_op o g : Inv g -> leaf_decl (items g) -> leaf_decl (items (apply_op o g)).
+Proof.
+  intros [W Q] H. unfold apply_op. destruct (err g); auto. destruct o.
   - destruct (_ && _); auto. unfold gc_alloc. destruct (size =? 0); auto. destruct (ptr =? 0); auto.
-    apply leaf_ok_register; auto.
+    apply leaf_decl_register; auto.
     + destruct (fk =? 0); auto. now apply WF_set_nextfid.
     + destruct (fk =? 0); auto.
-    + unfold user_flags, hasflag. rewrite Z.lor_spec. pose proof LEAF_nonneg. pose proof EXTERN_nonneg.
-      destruct leaf; auto. intros F. exfalso. cbn [orb] in F. rewrite Z.bits_0 in F. cbn [orb] in F.
-      destruct extern; [|rewrite Z.bits_0 in F; discriminate].
-      unfold bit in F. rewrite Z.shiftl_1_l, Z.pow2_bits_eqb in F by lia.
-      apply Z.eqb_eq in F. revert F. vm_compute. discriminate.
-  - destruct (lookup ptr (items g)) as [it|] eqn:L; auto. destruct (_ && _); auto. cbn.
-    eapply leaf_ok_update; eauto. cbn [store_item iflags idecl isize]. apply (H ptr it L).
+    + rewrite user_flags_leaf. auto.
+  - destruct (lookup ptr (items g)) as [it|] eqn:L; auto. destruct (_ && _); auto. cbn [items set_items].
+    eapply leaf_decl_update; eauto. cbn [store_item iflags idecl]. apply (H ptr it L).
   - destruct (lookup ptr (roots g)) as [[? ?]|]; auto. destruct (_ && _); auto.
   - destruct (lookup ptr (items g)) as [it|] eqn:L; auto. destruct (_ && _); auto. unfold gc_realloc.
     destruct (newptr =? 0); auto. unfold reregister.
     destruct ((ptr =? 0) || (newptr =? 0) || (newsize <=? 0)); auto.
-    assert (HN : hasflag (iflags it) LEAF_BIT = true -> idecl it = true \/ newsize < WORD_SIZE).
-    { intros F. destruct (H ptr it L F) as [D|S]; auto.
-      destruct (idecl it); auto. rewrite orb_false_r in SAFE. apply orb_prop in SAFE. destruct SAFE as [S1|S1]; lia. }
     destruct (newptr =? ptr).
     + rewrite L.
-      assert (U : leaf_ok_its (update ptr (resize_item newsize it) (items g)))
-        by (eapply leaf_ok_update; eauto).
+      assert (U : leaf_decl (update ptr (resize_item newsize it) (items g)))
+        by (eapply leaf_decl_update; eauto; cbn [resize_item iflags idecl]; apply (H ptr it L)).
       destruct (isize it <? newsize).
-      * match goal with |- leaf_ok_its (items (if _ then step _ ?G else ?G)) => assert (WG : WF G) end.
+      * match goal with |- leaf_decl (items (if _ then step _ ?G else ?G)) => assert (WG : WF G) end.
         { destruct W as [A B C]. constructor; cbn -[keys sum_sizes two64 Z.land Z.lor wsub wadd].
           - rewrite keys_update. auto.
           - erewrite sum_sizes_update by eauto. rewrite B, wadd_mod. f_equal. cbn [isize resize_item]. lia.
           - intros a. rewrite keys_update. auto. }
-        destruct (running _); auto. eapply leaf_ok_shrink; [apply shrink_step; exact WG | exact U].
+        destruct (running _); auto. eapply leaf_decl_shrink; [apply shrink_step; exact WG | exact U].
       * destruct (newsize <? isize it); auto.
-    + rewrite L. apply leaf_ok_register.
+    + rewrite L. apply leaf_decl_register.
       * apply WF_set_finq. now apply WF_remove_item.
-      * cbn. now apply leaf_ok_remove.
-      * exact HN.
-  - destruct (lookup ptr (items g)); auto. unfold gc_dealloc.
-    pose proof (leaf_ok_unregister true ptr g H). destruct (ptr =? 0); auto.
-  - destruct (lookup ptr (items g)); auto. now apply leaf_ok_unregister.
-  - destruct (_ && _); auto. apply leaf_ok_register; auto.
+      * cbn [items set_finq set_membytes set_items]. eapply leaf_decl_shrink; [apply shrink_remove | exact H].
+      * apply (H ptr it L).
+  - destruct (lookup ptr (items g)); auto. destruct (dealloc_ok _); auto. unfold gc_dealloc.
+    assert (leaf_decl (items (unregister run_fin true ptr g)))
+      by (eapply leaf_decl_shrink; [apply shrink_unregister, shrink_call_fin | exact H]).
+    destruct (ptr =? 0); auto.
+  - destruct (lookup ptr (items g)); auto. eapply leaf_decl_shrink; [apply shrink_unregister, shrink_call_fin | exact H].
+  - destruct (_ && _); auto. apply leaf_decl_register; auto.
     all: intros F; exfalso; unfold hasflag, bit in F; pose proof ROOT_nonneg;
       rewrite Z.shiftl_1_l, Z.pow2_bits_eqb in F by lia; apply Z.eqb_eq in F; symmetry in F; now apply LEAF_not_ROOT in F.
-  - eapply leaf_ok_shrink; [now apply shrink_collect | auto].
-  - eapply leaf_ok_shrink; [now apply shrink_step | auto].
+  - eapply leaf_decl_shrink; [now apply shrink_collect | auto].
+  - eapply leaf_decl_shrink; [now apply shrink_step | auto].
   - destruct (_ && _); auto.
   - auto.
   - auto.
 Qed.
 
-Lemma leaf_ok_run h : forall g, Inv g -> leaf_ok_its (items g) -> hist_leaf_safe h g = true ->
-  leaf_ok_its (items (run h g)).
+Lemma leaf_decl_run h : forall g, Inv g -> leaf_decl (items g) -> leaf_decl (items (run h g)).
 Proof.
-  induction h as [|o r IH]; intros g I H S; cbn [run fold_left]; auto.
-  cbn [hist_leaf_safe] in S. apply andb_prop in S. destruct S as [S1 S2].
-  apply IH; auto. { now apply Inv_apply_op. } now apply leaf_ok_apply_op.
+  induction h as [|o r IH]; intros g I H; cbn [run fold_left]; auto.
+  apply IH; [now apply Inv_apply_op | now apply leaf_decl_apply_op].
 Qed.
 
-(* strongest true restriction of leaf_flag_sound: every history in which no realloc grows a block
-   smaller than a pointer (not declared pointer-free) to pointer size or more *)
-Lemma leaf_flag_sound_partial h : hist_leaf_safe h gc_init = true -> leaf_ok (run h gc_init).
+(* the LEAF flag is sound over every history *)
+Lemma leaf_flag_sound : leaf_flag_sound_full.
 Proof.
-  intros S. apply leaf_ok_its_iff; [apply registered_once|].
-  apply leaf_ok_run; auto. { apply Inv_init. } intros a it L. discriminate.
+  intros h a it I F. left.
+  apply (leaf_decl_run h gc_init Inv_init (fun _ _ L => ltac:(discriminate)) a it); auto.
+  apply In_lookup_nodup; auto. apply registered_once.
 Qed.
 
-Example leaf_safe_nonvacuous :
-  hist_leaf_safe [OAlloc 4096 64 false false 1 7 []; ORealloc 4096 4096 128 []; OCollect []] gc_init = true.
-Proof. vm_compute. reflexivity. Qed.
-
-Lemma reachable_kept_leafsafe h stk a it :
-  hist_leaf_safe h gc_init = true ->
-  treach (items (run h gc_init)) (mark_seeds stk (run h gc_init)) a ->
-  lookup a (items (run h gc_init)) = Some it ->
-  lookup a (items (collect stk (run h gc_init))) = Some it /\
-  (forall e, In e (log (collect stk (run h gc_init))) -> ev_addr e = a -> In e (log (run h gc_init))).
-Proof. intros S. apply reachable_kept_partial. now apply leaf_flag_sound_partial. Qed.
+(* hence a collection keeps every truly reachable block, over every history *)
+Lemma reachable_kept : reachable_kept_full.
+Proof. intros h stk a it. apply reachable_kept_partial. apply leaf_flag_sound. Qed.
